@@ -297,6 +297,37 @@ def merge_collisions(chk, facts):
     chk.ob(rule, "merge:occupied", bool(errs), "without renaming a collision is reported as an error: %s" % bool(errs), where=f.where(), fn=f.name)
 
 
+def removal_guards(chk, facts):
+    """No link exists without its template: remove_template takes the template out only when its link set is known and empty, and
+    only for an id that is not a link; unlink only for an id that is not a template."""
+    rule = "C08.GUARD.ids"
+    f = get_fn(chk, facts, rule, AST_PS + "remove_template")
+    if f is not None:
+        rem = [(b, t) for b, t in f.calls() if callee(t).endswith("::remove") and "LinkedHashMap" in callee(t) and
+               any(isinstance(e, list) and e[0] == "f" and e[2] == "templates" for e in (t[2][0][1][1:] if t[2][0][0] in ("c", "m") else []))]
+        if not rem:
+            from lib.slice import leaf_producers
+            rem = [(b, t) for b, t in f.calls() if callee(t).endswith("::remove") and "LinkedHashMap" in callee(t) and any(x.endswith("templates") for x in leaf_producers(f, t[2][0]))]
+        ok = bool(rem)
+        det = []
+        for b, t in rem:
+            descs = [(panics.cond_desc(f, d), [v for v, _ in taken]) for d, taken in cfg.guard_edges(f, b)]
+            empty = any("is_empty" in dsc and tk == ["else"] for dsc, tk in descs)
+            known = any("Option" in dsc and ("::get" in dsc) and tk == [1] for dsc, tk in descs)
+            notlink = any("contains_key" in dsc and tk == [0] for dsc, tk in descs)
+            ok &= empty and known and notlink
+            det.append("link set empty: %s, link set known: %s, id not a link: %s" % (empty, known, notlink))
+        chk.ob(rule, "remove_template", ok, "the template is removed only when %s" % (det or ["no removal found"]), where=f.where(), fn=f.name, key="%s:remove_template" % rule)
+    g = get_fn(chk, facts, rule, AST_PS + "unlink")
+    if g is not None:
+        rem = [(b, t) for b, t in g.calls() if callee(t).endswith("::remove") and "LinkedHashMap" in callee(t)]
+        ok = False
+        for b, t in rem[:1]:
+            descs = [(panics.cond_desc(g, d), [v for v, _ in taken]) for d, taken in cfg.guard_edges(g, b)]
+            ok = any("contains_key" in dsc and tk == [0] for dsc, tk in descs)
+        chk.ob(rule, "unlink", ok, "a policy is unlinked only when its id is not a template id: %s" % ok, where=g.where(), fn=g.name, key="%s:unlink" % rule)
+
+
 def index_monotone(chk, facts):
     """The link index never forgets a link: an overwriting insert into template_to_links_map happens only for a template that is
     provably new (under the Vacant entry of `templates`), or writes back the set it just removed (merge); links of an existing
@@ -537,6 +568,7 @@ def run(chk, facts, tier):
     id_guards(chk, facts)
     pair_index(chk, facts)
     merge_collisions(chk, facts)
+    removal_guards(chk, facts)
     binding(chk, facts)
     equality(chk, facts)
     link_fields(chk, facts)
